@@ -227,6 +227,23 @@ check("C15", "model_checking",
       "explicit-state BFS over call histories of the real library with fork-per-transition and global-state digests",
       "DESIGN.md §3/C15")
 
+check("C09", "exploration",
+      "Metamorphic enumeration on the real parser/type checker: for a rich accepted model and one rejected variant per "
+      "diagnostic class (unknown identifier, type error, side effect in a guard, non-convex guard, write to a constant, "
+      "non-computable array size, syntax errors in a label and in a declaration; thorough: duplicate definition, wrong argument "
+      "count, side effect in an invariant, failing query, unterminated comment) every site of three rewrite families is applied "
+      "singly: layout (blank, tab, newline, CR LF, block / line / EXPECT comment, backslash continuation at every token boundary "
+      "of every text block; a redundant pair of parentheses around every sub-expression), consistent renaming of every user "
+      "identifier (33 of every identifier class) to a fresh name and to each soft keyword A U W R E M sup inf bounds "
+      "simulation, and keyword-operator aliases in either direction at every occurrence. Diagnostic messages (renaming mapped "
+      "back, positions ignored), supported methods, document dump and parsed queries must equal the base model's. Plus a "
+      "redundant pair of parentheses around every node of every depth-2 expression tree of the C02 enumeration.",
+      "Trusts lib/exprgen.py to render the same tree with extra parentheses / alias spellings. sup, inf, bounds, simulation are "
+      "not used for template/location names (the XML reader deliberately refuses keywords there). Newlines are not inserted "
+      "into queries (they separate queries). Small scope: the base models of checks/c09.py, one rewrite at a time.",
+      "bounded-exhaustive rewrite-site enumeration on the real code with a metamorphic oracle (verdict and document unchanged)",
+      "DESIGN.md §3/C09")
+
 check("C19", "exploration",
       "For every parsed expression of the C02 enumeration and the C03 query forms (n-ary LIST/FUN_CALL/SIMULATE/PROBA nodes "
       "included) the real clone_deeper/subst/equal/get_size are run against their laws: clone equal, no shared node, mutation "
